@@ -436,6 +436,55 @@ pub fn check_growth_sig(c: &GrowthSig, st: &mut Stats) -> CheckResult {
     Ok(())
 }
 
+#[derive(Clone, Debug, Hash, serde::Serialize, serde::Deserialize)]
+pub struct LongCase {
+    pub set: u8,
+    pub len: u32,
+    pub mode: u8,
+    pub seed: u64,
+}
+
+/// Honest tuple over a very long message and its nearest neighbours (last / first byte changed, one byte
+/// shorter / longer, prefix of 2^16 bytes only): the library's verdict must equal the reference's on each.
+pub fn check_long(c: &LongCase, st: &mut Stats) -> CheckResult {
+    let libr = crate::libapi::libs()[c.set as usize % 3];
+    let p = libr.p();
+    let mode = crate::gen::mode_of(c.mode);
+    let xi = crate::gen::Seed32::Uniform(c.seed % 3).bytes();
+    let (pk, sk) = rf::keygen_internal(&p, &xi);
+    let m = crate::gen::prg_bytes(c.seed, "c02-long", c.len as usize);
+    let ctx = crate::gen::prg_bytes(c.seed ^ 1, "c02-long-ctx", (c.seed % 5) as usize);
+    let (sig, _) = rf::sign(&p, &sk, &m, &ctx, mode, &[0x21; 32], 100_000).expect("reference sign");
+    let k = g_pk(libr, &pk)?;
+    let mut variants: Vec<(&str, Vec<u8>)> = vec![("same", m.clone())];
+    let mut v = m.clone();
+    let n = v.len();
+    v[n - 1] ^= 1;
+    variants.push(("last_byte_changed", v));
+    let mut v = m.clone();
+    v[0] ^= 0x80;
+    variants.push(("first_byte_changed", v));
+    variants.push(("one_byte_shorter", m[..n - 1].to_vec()));
+    let mut v = m.clone();
+    v.push(0);
+    variants.push(("one_byte_longer", v));
+    if n > 65_536 {
+        variants.push(("first_65536_bytes_only", m[..65_536].to_vec()));
+        variants.push(("length_mod_65536", m[..n % 65_536].to_vec()));
+    }
+    for (name, vm) in &variants {
+        let expect = rf::verify(&p, &pk, vm, &sig, &ctx, mode).accepted();
+        let got = g_verify(&*k, vm, &sig, &ctx, mode)?;
+        st.eval();
+        st.class(&format!("{name}:{expect}"));
+        if got != expect {
+            return Err(Fail::new(format!("long_message_verdict:{name}:set{}", p.id), format!("set {} {}: |M| = {}: verify says {got} on variant '{name}', FIPS 204 Verify says {expect}", p.id, mode.tag(), c.len)));
+        }
+    }
+    st.nontrivial(c);
+    Ok(())
+}
+
 pub fn run(ctx: &Ctx, rep: &mut Report) {
     rep.assume(ASSUME_REF);
     rep.assume("accept-side cases under an honest public key come only from honest signing; accept-side boundary cases come from the t1 = 0 construction (every pk-length string is a valid public key)");
@@ -459,6 +508,16 @@ pub fn run(ctx: &Ctx, rep: &mut Report) {
     let sib = load_sib_corpus(&ctx.root);
     run_list(rep, "sample_in_ball_extremes", &sib, check_sib);
     crate::props::history::run(ctx, rep, 2500, 60000);
+    let mut long = Vec::new();
+    for (li, len) in crate::props::c03::LONG_MSG_LENS.iter().enumerate() {
+        for mode in 0..4u8 {
+            if ctx.quick() && *len > (1 << 20) + 168 && mode % 2 == 0 {
+                continue;
+            }
+            long.push(LongCase { set: ((li + mode as usize + 2) % 3) as u8, len: *len, mode, seed: crate::engine::hash_of(&(ctx.seed, "c02-long", len, mode)) });
+        }
+    }
+    run_list(rep, "long_messages", &long, check_long);
 }
 
 pub fn replay(_ctx: &Ctx, sub: &str, case: &Value) -> Option<CheckResult> {
@@ -466,6 +525,7 @@ pub fn replay(_ctx: &Ctx, sub: &str, case: &Value) -> Option<CheckResult> {
         "generated" => Some(check(&from_case::<Case>(case), &mut Stats::default())),
         "aligned" => Some(check_aligned(&from_case::<AlignedCase>(case), &mut Stats::default())),
         "sample_in_ball_extremes" => Some(check_sib(&from_case::<SibCase>(case), &mut Stats::default())),
+        "long_messages" => Some(check_long(&from_case::<LongCase>(case), &mut Stats::default())),
         "max_growth_z" => Some(check_growth_sig(&from_case::<GrowthSig>(case), &mut Stats::default())),
         _ => None,
     }
